@@ -179,11 +179,11 @@ func main() {
 	P := func(b ...int) sdrive.Plan { return sdrive.Plan{Bounds: b} }
 	scens := []sdrive.Scenario{
 		{Name: "writer+consumer+close", Props: []string{"C19"}, About: "all call sequences <= 3 x {Write,WriteString} x {full,short,fail} x {StringWriter or not}; consumer draining Status() at every possible pace; Close",
-			Quick: P(0, -1), Body: body(true, true), MinOutcomes: 50},
+			Quick: P(0, -1), Body: body(true, true), MinOutcomes: 50, NoSleep: true},
 		{Name: "writer-alone", Props: []string{"C19"}, About: "nobody ever receives: no Write may block",
-			Quick: P(-1), Body: body(false, false), MinOutcomes: 50},
+			Quick: P(-1), Body: body(false, false), MinOutcomes: 50, NoSleep: true},
 		{Name: "writer-alone+close", Props: []string{"C19"}, About: "nobody receives and Close is called: only Close may block",
-			Quick: P(-1), Body: body(false, true), MinOutcomes: 50},
+			Quick: P(-1), Body: body(false, true), MinOutcomes: 50, NoSleep: true},
 	}
 	sdrive.Main("model_checking", scens, []string{
 		"the status channel is a scheduler channel with Go's semantics (a non-blocking send succeeds only if a receiver is already parked)",
